@@ -178,6 +178,28 @@ Proof.
   - destruct (Nat.ltb_spec hi lo); [reflexivity|lia].
 Qed.
 
+Lemma step_endinsn pc ix sl aux K : at_ pc IEnd -> 2 <= length sl ->
+  exists sv, mstep (Run pc ix sl aux K) = Halt (RMatch sv) /\ length sv = length sl /\
+             forall n, 2 <= n -> firstn n sv = end_fix (firstn n sl).
+Proof.
+  intros H Hl. unfold mstep. rewrite H. cbn [gexec_insn]. red1u. unfold r_get, mkr at 1 2. cbn [r_slots].
+  destruct sl as [|s0 [|s1 rest]]; cbn [length] in Hl; try lia. cbn [nth_error].
+  assert (Hf : forall (x y : val) n, 2 <= n -> firstn n (x :: y :: rest) = x :: y :: firstn (n - 2) rest).
+  { intros x y n Hn. destruct n as [|[|n]]; try lia. cbn [firstn]. repeat f_equal. lia. }
+  destruct s0 as [a|], s1 as [b|].
+  - destruct (b <? a) eqn:Eb.
+    + rewrite r_save_ok by (cbn [length]; lia). cbn [upd mkr r_slots]. eexists; split; [reflexivity|]. split; [reflexivity|].
+      intros n Hn. rewrite !Hf by auto. unfold end_fix, getcap. cbn [nth_error]. rewrite Eb. reflexivity.
+    + eexists; split; [reflexivity|]. split; [reflexivity|].
+      intros n Hn. rewrite !Hf by auto. unfold end_fix, getcap. cbn [nth_error]. rewrite Eb. reflexivity.
+  - eexists; split; [reflexivity|]. split; [reflexivity|].
+    intros n Hn. rewrite !Hf by auto. reflexivity.
+  - rewrite r_save_ok by (cbn [length]; lia). cbn [upd mkr r_slots]. eexists; split; [reflexivity|]. split; [reflexivity|].
+    intros n Hn. rewrite !Hf by auto. reflexivity.
+  - eexists; split; [reflexivity|]. split; [reflexivity|].
+    intros n Hn. rewrite !Hf by auto. reflexivity.
+Qed.
+
 Definition mk_alt_ (pc ix : nat) (sl aux : list val) : alt := {| a_pc := pc; a_ix := ix; a_slots := sl; a_aux := aux |}.
 
 Lemma nth_error_lt {A} (l : list A) k x : nth_error l k = Some x -> k < length l.
